@@ -58,7 +58,7 @@ package cbe
 // allocBytes: bytes requested from make() so far (counted by the model at every make). C08: the
 // reader never reserves more than twice what a length field announces, and a length field is only
 // believed up to a limit (a constant, a validated ULEB value, or a chunk size the receiver accepted).
-//@ ghost allocBytes uint64
+// (the ghost is declared in /verif/contracts/trusted/io.ct, which every run loads)
 //@ func (*Reader).expandBufferTo
 //@   requires len(_this.buffer) >= 16 && 0 <= minSize
 //@   modifies _this.buffer, alloc
